@@ -34,6 +34,14 @@ def _sync(title, oracle, ref):
 
 
 CHECKS.update({
+    "C17": dict(
+        category="exploration",
+        technique="runtime monitoring: sequential reference model + per-item exactly-once counters + guard bytes / exactly sized heap blocks under ASan for the C helpers; per-task slots and per-index counters vs the sequential loop for mtbb, with a live-thread watchdog for non-terminating recursion",
+        text=("Hundreds of generated calls per process of create_join_many/various over n in {0..10000}, all stride combinations, NULL/non-NULL ids/results/attrs, per-item attributes, function stride 0; "
+              "every slot is compared with the sequential loop, guard bytes and untouched slots must be intact. mtbb::task_group with 0-100 tasks per wait, 1-400 byte captures and nesting; "
+              "mtbb::parallel_for in its four forms over small (first,last,step,grain) incl. empty, reversed and single-element ranges; per-index counters must equal the sequential loop's."),
+        design_ref="DESIGN.md section 5 C17",
+    ),
     "C12": dict(
         category="exploration",
         technique="runtime monitoring: ownership ledger for records and stacks fed by hooks at every acquisition/release (CAS-updated, page-granular overlap map, releasing-frame check, size-word check), ASan poison / fill pattern on released stacks, whole-stack canaries, release-legality callback; delay injection in the finish/join/detach windows",
